@@ -239,6 +239,9 @@ pub fn run(ctx: &Ctx, findings: &Findings) -> PropReport {
                 subs.push(r);
             }
         }
+        if let Some(r) = replay_case::<crate::props::c07::AdoptCase>(ctx, findings, "adopt", &v, &crate::props::c07::check_adopt) {
+            subs.push(r);
+        }
     } else {
         let n = ctx.cases(20000, 400000);
         subs.push(drive(ctx, findings, "recover", RULE, n, || strategy(false), &check_case));
@@ -255,12 +258,13 @@ pub fn run(ctx: &Ctx, findings: &Findings) -> PropReport {
         };
         let n = ctx.cases(60, 600);
         subs.push(drive(&tcp_ctx, findings, "recover-tcp", RULE, n, || strategy(true), &check_case));
+        subs.push(drive(ctx, findings, "adopt", crate::props::c07::RULE_ADOPT, ctx.cases(1500, 40000), crate::props::c07::adopt_strategy, &crate::props::c07::check_adopt));
     }
     PropReport {
         level: "exploration",
         subs,
         assumptions: vec![
-            "system-level clause (proxies adopting the recovered view through sync rounds) is checked by C07's world, not here".into(),
+            "[adopt] recovery is driven through hook H2 with the epochs the world's proxies report; proxies unknown to the restored snapshot are outside 'reachable proxies' (the recovered broker cannot name them)".into(),
             "in the TCP variant only proxies known to the restored snapshot and reachable are asked, exactly like production; the guarantee is then relative to those".into(),
         ],
         extra: Default::default(),
